@@ -118,6 +118,19 @@ def main_clause(cl, rng, n, replay):
         rng_hz = (None, None) if rng.random() < 0.5 else (float(rng.uniform(0.2, 0.6)), float(rng.uniform(9, 20)))
         if crafted:
             rng_hz = (None, None)
+        if j % 7 == 6 and not crafted:
+            # every window has a narrow peak of its own near 1 Hz (scattered, so that their mean is low) and shares a broad, lower bump at 3 Hz (where the mean curve peaks);
+            # one ordinary window has a dead band (amplitude exactly 0, legal) around 3 Hz: under the lognormal assumption the mean curve is 0 in that band, so the
+            # mean-curve peak the stopping rule looks at is near 1 Hz - not the 3 Hz bump a floored logarithm would still see
+            dmc, dfn, nn, mi, rng_hz = "lognormal", "lognormal", float(rng.choice([2.0, 2.5])), 50, (None, None)
+            f = np.geomspace(0.2, 20, 200)
+            lf = np.log(f)
+            K = int(rng.integers(60, 100))
+            f0 = 1.0 * np.exp(rng.standard_t(4, K) * 0.2)
+            a0, b0 = rng.uniform(0.9, 1.1, K) * 3.0, rng.uniform(0.95, 1.05, K) * 2.5
+            A = 1 + a0[:, None] * np.exp(-0.5 * ((lf[None, :] - np.log(f0)[:, None]) / 0.06) ** 2) + b0[:, None] * np.exp(-0.5 * ((lf[None, :] - np.log(3.0)) / 0.12) ** 2)
+            w0 = int(np.argmin(np.abs(np.log(f0))))          # a window whose own peak is typical: it stays accepted
+            A[w0, np.abs(lf - np.log(3.0)) < 0.4] = 0.0
         try:
             want = reference_fdwra(f, A.copy(), rng_hz, nn, mi, dfn, dmc, exact=crafted)
         except (ValueError, ZeroDivisionError, FloatingPointError):
